@@ -108,7 +108,11 @@ def toks_any(n):
             init = [c for c in d.get('inner', []) if c.get('kind') not in ('FullComment',)]
             out.append(('decl', ('id', d.get('name')), toks(init[-1]) if init and 'init' in d else ('lit', '?')))
         return ('block',) + tuple(out)
-    return toks(n)
+    t = toks(n)
+    if t[0] == 'bin' and t[1] == '=' and t[2][0] == 'id':
+        # `v = e` as a loop initialiser is the same header as `T v = e`
+        return ('block', ('decl', t[2], t[3]))
+    return t
 
 
 def _only_kindfree(p):
